@@ -160,6 +160,12 @@ def set_log(lst: list | None, logfile: str | None = None):
     _COUNTS.clear()
 
 
+def log_call(fname: str, tag: str):
+    """Record an invocation of user code that is not one of the generated bodies."""
+    if _LOG is not None:
+        _LOG.append((fname, tag))
+
+
 def set_fail(spec: dict | None):
     global _FAIL
     _FAIL = spec
